@@ -161,7 +161,7 @@ def _ks_record(t, tag, rid):
                     pass
                 rho = np.linalg.norm(H[d] - x[idx[a][2]]); rnc = np.linalg.norm(x[idx[d][0]] - x[idx[a][1]])
                 rhc = np.linalg.norm(H[d] - x[idx[a][1]]); rno = np.linalg.norm(x[idx[d][0]] - x[idx[a][2]])
-                R = [max(1, int(round(v * 1e4))) for v in (rho, rnc, rhc, rno)]
+                R = [max(1, int(round(v * 1e5))) for v in (rho, rnc, rhc, rno)]
                 cands.append(dict(d=d, a=a, rho=R[0], rnc=R[1], rhc=R[2], rno=R[3], pro=int(res[d].name == "PRO")))
                 energies[(d, a)] = max(-9.9, -2.7888 * (1 / rho + 1 / rnc - 1 / rhc - 1 / rno))
     m = md.kabsch_sander(t)[0].tocoo()
